@@ -44,6 +44,12 @@ theorem C15_gen_measure_calls :
     BiotiteModel.Gen.C15.dihedralCalls = [(1, 2, true), (2, 3, true), (3, 4, true)] := by
   decide
 
+/-- `unitcell_from_vectors` takes alpha, beta, gamma from the dot products `b·c`, `a·c`, `a·b` of the box vectors
+(what `C15_unitcell_inverse_partial` speaks about) — not from single components. -/
+theorem C15_gen_unitcell_angle_dots :
+    BiotiteModel.Gen.C15.unitcellAngleDots = [(1, 2), (0, 2), (0, 1)] := by
+  decide
+
 /-! ## Rigid-motion invariance (polynomial identities over any commutative ring) -/
 
 section Rigid
